@@ -74,6 +74,7 @@ pub fn enc_object(o: &Object, kind: i64, da: u8, data: &[u8], out: &mut Vec<i64>
 }
 
 pub fn exec(c: &[i64]) -> Vec<i64> {
+    if c[0] == 200 { return crate::c17::exec(&c[1..]); }
     let (kind, da, sa, id) = (c[0], c[1] as u8, c[2] as u8, c[3] as u32);
     let data: Vec<u8> = c[4..].iter().map(|x| *x as u8).collect();
     let r = std::panic::catch_unwind(|| {
@@ -145,6 +146,15 @@ pub fn gen_mode(o: &Opts, mode: u32, sink: &mut dyn FnMut(Vec<i64>, String)) {
         }
     }
     if mode == 1 {
+        // the socket path: raw can_frames with every DLC 0..8 through CANSocket::recv + ControlNetwork::recv
+        let nraw = if o.tier_thorough { 9_000 } else { 900 };
+        for j in 0..nraw {
+            let can_id = (rng.next() as u32 & 0x1fffffff) | 0x8000_0000;
+            let dlc = (j % 9) as u8;
+            let data: Vec<u8> = (0..8).map(|_| match rng.below(3) { 0 => 0, 1 => 0xff, _ => rng.byte() }).collect();
+            let raw = crate::bus::raw_frame(can_id, dlc, &data);
+            put!({ let mut c = vec![200, 3]; c.extend(raw.iter().map(|x| *x as i64)); c });
+        }
         // from the unit itself: boundary value at every offset for every inspected PGN; all-FF (a padded DLC-0 frame); random data
         for kind in kinds { for ci in 0..2u64 {
             let (da, sa) = cfg_for(kind, ci);
